@@ -403,6 +403,9 @@ func (c *Check) panicInventory() {
 				if !ok {
 					continue
 				}
+				if !pn.Pos().IsValid() {
+					continue // inserted by the compiler front end (misuse check of a range-over-function loop), not an assertion of the program
+				}
 				n++
 				key := "panic:" + fnName(f)
 				owner := fnName(f)
